@@ -90,4 +90,65 @@ def definitions_in_order_bounded(seed):
             'evaluations': n, 'failures': fails}
 
 
-QUICK_BOUNDED = [definitions_in_order_bounded]
+def substitution_reference_bounded(seed):
+    """"every later use expands to the body with each #k replaced by the k-th
+    actual argument (the default for an omitted optional one)": macros with
+    0-2 parameters, with and without optional default, used with the
+    optional argument given / omitted and the mandatory one braced / single
+    token, in every context out of {end of input, blank, line end, text,
+    inside braces, before a paragraph break}; the text must equal the body
+    substituted by hand"""
+    import contextlib
+    import io
+    from pyvc import replay as _r
+    t2t = _r.real_module('yalafi.tex2txt')
+
+    def run(src):
+        with contextlib.redirect_stderr(io.StringIO()):
+            return t2t.tex2txt(src, t2t.Options())[0]
+    defs = ('\\newcommand{\\ma}[2][Dflt]{<#1|#2|#1>}\n'
+            '\\newcommand{\\mb}[1][Opt]{(#1)}\n'
+            '\\newcommand{\\mc}[2]{[#2-#1]}\n'
+            '\\newcommand{\\md}{Zero}\n')
+    uses = [('\\ma{x}', '<Dflt|x|Dflt>'), ('\\ma[o]{x}', '<o|x|o>'),
+            ('\\ma y', '<Dflt|y|Dflt>'), ('\\ma[o]y', '<o|y|o>'),
+            ('\\mb', '(Opt)'), ('\\mb[q]', '(q)'), ('\\mb[]', '()'),
+            ('\\mc{a}{b}', '[b-a]'), ('\\mc ab', '[b-a]'),
+            ('\\mc{\\mb}{\\md}', '[Zero-(Opt)]'),
+            ('\\ma[\\md]{\\mb[r]}', '<Zero|(r)|Zero>'),
+            ('\\md', 'Zero')]
+    ctxs = [('S %s', 'S %s'), ('S %s\n', 'S %s'), ('S %s E', None),
+            ('S {%s} E', 'S %s E'), ('S {%s}', 'S %s'),
+            ('S %s\n\nE', 'S %s E'), ('S %s.', 'S %s.'),
+            ('%s', '%s'), ('S %s{} E', 'S %s E')]
+    n, fails = 0, []
+    for use, exp in uses:
+        for cin, cout in ctxs:
+            if cout is None:
+                # blank after a control word is skipped as in TeX
+                cout = 'S %sE' if re_ends_in_word(use) else 'S %s E'
+            doc = defs + cin % use
+            want = (cout % exp).split()
+            n += 1
+            try:
+                got = run(doc).split()
+            except BaseException as e:      # noqa
+                fails.append({'document': doc, 'why': 'exception %r' % (e,)})
+                continue
+            if got != want:
+                fails.append({'document': doc, 'text': ' '.join(got),
+                              'expected': ' '.join(want)})
+        if len(fails) >= 3:
+            break
+    return {'name': 'uses-expand-to-the-substituted-body',
+            'bounded': True,
+            'bound': '%d uses x %d contexts, 4 definitions' % (len(uses), len(ctxs)),
+            'evaluations': n, 'failures': fails}
+
+
+def re_ends_in_word(use):
+    import re
+    return re.search(r'\\[a-z]+$', use) is not None
+
+
+QUICK_BOUNDED = [definitions_in_order_bounded, substitution_reference_bounded]
